@@ -5,6 +5,7 @@ edits [(file, old text, new text)].  Text anchors, not line numbers: an entry wh
 longer occurs in the current tree is skipped and listed, never counted.
 """
 
+import os
 M = {}
 
 # ------------------------------------------------------------------------------------------- C17
@@ -85,6 +86,10 @@ _VGUARD = '''    if (sz < SIZE_MAX
         }
     } /* else, the number of bytes can't be represented */'''
 M['C09'] = [
+    dict(id='c09-benign-swap-memberwise-complete', kind='benign', rule='V8', edits=[
+        ('src/vector.c', '    struct cstl_vector t;\n    cstl_swap(a, b, &t, sizeof(t));', '    struct cstl_vector t;\n    cstl_swap(&a->elem, &b->elem, &t.elem, sizeof(t.elem));\n    cstl_swap(&a->count, &b->count, &t.count, sizeof(t.count));\n    cstl_swap(&a->cap, &b->cap, &t.cap, sizeof(t.cap));')]),
+    dict(id='c09-swap-forgets-capacity', kind='fault', rule='V8', edits=[
+        ('src/vector.c', '    struct cstl_vector t;\n    cstl_swap(a, b, &t, sizeof(t));', '    struct cstl_vector t;\n    cstl_swap(&a->elem, &b->elem, &t.elem, sizeof(t.elem));\n    cstl_swap(&a->count, &b->count, &t.count, sizeof(t.count));')]),
     dict(id='c09-revert-fix-unguarded-size', kind='fault', rule='V1', edits=[
         ('src/vector.c', _VGUARD, '    e = realloc(v->elem.base, (sz + 1) * v->elem.size);\n    if (e != NULL) {\n        v->elem.base = e;\n        v->cap = sz;\n    }')]),
     dict(id='c09-guard-misses-sz-max', kind='fault', rule='V1', edits=[
@@ -203,7 +208,7 @@ M['C16'] = [
     dict(id='c16-vector-commit-before-check', kind='fault', rule='F1', edits=[
         ('src/vector.c', '        if (e != NULL) {\n            v->elem.base = e;\n            v->cap = sz;\n        }', '        v->elem.base = e;\n        if (e != NULL) {\n            v->cap = sz;\n        }')]),
     dict(id='c16-hash-capacity-committed-on-failure', kind='fault', rule='F1', edits=[
-        ('src/hash.c', '    if (at != NULL) {\n        h->bucket.at = at;\n        h->bucket.capacity = sz;\n    }', '    if (at != NULL) {\n        h->bucket.at = at;\n    }\n    h->bucket.capacity = sz;')]),
+        ('src/hash.c', '        if (at != NULL) {\n            h->bucket.at = at;\n            h->bucket.capacity = sz;\n        }', '        if (at != NULL) {\n            h->bucket.at = at;\n        }\n        h->bucket.capacity = sz;')]),
     dict(id='c16-map-node-unchecked', kind='fault', rule='F1', edits=[
         ('src/map.c', '    if (n) {\n        n->key = key;\n        n->val = val;\n    }', '    n->key = key;\n    n->val = val;')]),
     dict(id='c16-unique-alloc-sets-clr-on-failure', kind='fault', rule='F1', edits=[
@@ -213,7 +218,7 @@ M['C16'] = [
     dict(id='c16-map-insert-reports-success-on-failure', kind='fault', rule='F3', edits=[
         ('src/map.c', '        err = -1;\n        node = cstl_map_node_alloc(key, val);', '        err = 0;\n        node = cstl_map_node_alloc(key, val);')]),
     dict(id='c16-hash-resize-ignores-failed-capacity', kind='fault', rule='F2', edits=[
-        ('src/hash.c', '        if (h->bucket.at != NULL\n            && count <= h->bucket.capacity\n            && (count != h->bucket.count', '        if (h->bucket.at != NULL\n            && (count != h->bucket.count')]),
+        ('src/hash.c', '        if (h->bucket.at != NULL\n            && count <= h->bucket.capacity\n            && (count != cur_count', '        if (h->bucket.at != NULL\n            && (count != cur_count')]),
     dict(id='c16-vector-resize-continues-after-failure', kind='fault', rule='F2', edits=[
         ('src/vector.c', '        abort(); // GCOV_EXCL_LINE', '        ; // keep going')]),
     dict(id='c16-map-insert-links-null-node', kind='fault', rule=['F1', 'F2', 'F3'], edits=[
@@ -224,7 +229,7 @@ M['C16'] = [
         ('src/memory.c', '            if (cstl_unique_ptr_get(&data->up) != NULL) {\n                cstl_guarded_ptr_set(&sp->data, data);\n                data = NULL;\n            }\n\n            free(data);',
          '            if (cstl_unique_ptr_get(&data->up) == NULL) {\n                free(data);\n            } else {\n                cstl_guarded_ptr_set(&sp->data, data);\n            }')]),
     dict(id='c16-benign-hash-setter-early-return', kind='benign', edits=[
-        ('src/hash.c', '    if (at != NULL) {\n        h->bucket.at = at;\n        h->bucket.capacity = sz;\n    }', '    if (at == NULL) {\n        return;\n    }\n    h->bucket.at = at;\n    h->bucket.capacity = sz;')]),
+        ('src/hash.c', '        if (at != NULL) {\n            h->bucket.at = at;\n            h->bucket.capacity = sz;\n        }', '        if (at == NULL) {\n            return;\n        }\n        h->bucket.at = at;\n        h->bucket.capacity = sz;')]),
 ]
 
 # ------------------------------------------------------------------------------------------- C04
@@ -320,6 +325,12 @@ M['C19'].append(dict(id='c19-current-count-helper', kind='fault', rule='S2', edi
 
 # ------------------------------------------------------------------------------------------- C03
 M['C03'] = [
+    dict(id='c03-swap-leaves-count-and-offset', kind='fault', rule='L9', edits=[
+        ('include/cstl/hash.h', '    struct cstl_hash t;\n    cstl_swap(a, b, &t, sizeof(t));', '    struct cstl_hash t;\n    cstl_swap(&a->bucket, &b->bucket, &t.bucket, sizeof(t.bucket));')]),
+    dict(id='c03-benign-shrink-passes-effective-count', kind='benign', rule='L8', edits=[
+        ('src/hash.c', '        __cstl_hash_set_capacity(h, h->bucket.count);', '        __cstl_hash_set_capacity(h, count);')]),
+    dict(id='c03-shrink-without-forcing-rehash', kind='fault', rule='L8', edits=[
+        ('src/hash.c', '        cstl_hash_rehash(h);\n        __cstl_hash_set_capacity(h, h->bucket.count);', '        __cstl_hash_set_capacity(h, h->bucket.count);')]),
     dict(id='c03-insert-uses-current-geometry-directly', kind='fault', rule='L1', edits=[
         ('src/hash.c', '    struct cstl_hash_bucket * const bk = cstl_hash_get_bucket(h, k);\n    struct cstl_hash_node * const hn = __cstl_hash_node(h, e);',
          '    struct cstl_hash_bucket * const bk = __cstl_hash_get_bucket(h, k, h->bucket.hash, h->bucket.count);\n    struct cstl_hash_node * const hn = __cstl_hash_node(h, e);')]),
@@ -562,6 +573,14 @@ M['C08'] = [
 
 # ------------------------------------------------------------------------------------------- C11
 M['C11'] = [
+    dict(id='c11-pivot-modulo-count-plus-one', kind='fault', rule='X5', edits=[
+        ('src/array.c', '            p = rand() % count;', '            p = rand() % (count + 1);')]),
+    dict(id='c11-pivot-median-is-count', kind='fault', rule='X5', edits=[
+        ('src/array.c', '            p = (count - 1) / 2;\n            mid = __cstl_raw_array_at(arr, size, p);', '            mid = __cstl_raw_array_at(arr, size, (count - 1) / 2);\n            p = (count + 2) / 2;')]),
+    dict(id='c11-benign-pivot-half', kind='benign', rule='X5', edits=[
+        ('src/array.c', '            p = rand() % count;', '            p = (size_t)rand() % count;')]),
+    dict(id='c11-benign-pivot-scaled-correctly', kind='benign', rule='X5', edits=[
+        ('src/array.c', '            p = rand() % count;', '            p = ((uint64_t)rand() * count) / ((uint64_t)RAND_MAX + 1);')]),
     dict(id='c11-revert-int-indices-search', kind='fault', rule='X1', edits=[
         ('src/array.c', '    ssize_t i, j;\n\n    for (i = 0, j = count - 1; i <= j;) {\n        const ssize_t n = (i + j) / 2;', '    int i, j;\n\n    for (i = 0, j = count - 1; i <= j;) {\n        const int n = (i + j) / 2;')]),
     dict(id='c11-unsigned-int-count-in-find', kind='fault', rule='X1', edits=[
@@ -638,6 +657,12 @@ M['C05'] = [
 
 # ------------------------------------------------------------------------------------------- C06
 M['C06'] = [
+    # explicit-orders refactoring (seeded C06-3: release-only decrements) made correct again by the acquire-fence idiom
+    dict(id='c06-benign-release-decrement-plus-acquire-fence', kind='benign', rule='A2', patch=os.path.join(os.path.dirname(os.path.abspath(__file__)), '..', 'seeded', 'C06-3', 'patch.diff'), edits=[
+        ('src/memory.c', '        if (cstl_ref_release(&data->ref.hard) == 1) {\n', '        if (cstl_ref_release(&data->ref.hard) == 1) {\n            atomic_thread_fence(memory_order_acquire);\n'),
+        ('src/memory.c', '        if (cstl_ref_release(&data->ref.soft) == 1) {\n', '        if (cstl_ref_release(&data->ref.soft) == 1) {\n            atomic_thread_fence(memory_order_acquire);\n')]),
+    dict(id='c06-release-decrement-fence-only-on-one-counter', kind='fault', rule='A2', patch=os.path.join(os.path.dirname(os.path.abspath(__file__)), '..', 'seeded', 'C06-3', 'patch.diff'), edits=[
+        ('src/memory.c', '        if (cstl_ref_release(&data->ref.hard) == 1) {\n', '        if (cstl_ref_release(&data->ref.hard) == 1) {\n            atomic_thread_fence(memory_order_acquire);\n')]),
     dict(id='c06-plain-counter-type', kind='fault', rule='A1', edits=[
         ('src/memory.c', '        atomic_size_t hard, soft;', '        size_t hard;\n        atomic_size_t soft;'),
         ('src/memory.c', '            atomic_init(&data->ref.hard, 1);', '            data->ref.hard = 1;'),
